@@ -217,5 +217,28 @@ LEVEL_TEXT = {
  "C19": "Kernel-checked on the model: in every state satisfying the session invariant for ANY history (empty included; no caches) and for EVERY pair of bounds and EVERY n (0 included) read_all, read_first_n, read_n, n_lines_between, len, last_line return a value or an error, never a panic, and n = 0 returns nothing (queries_never_panic; read_n under <= 2^32 lines per file); creating a series with any admissible configuration and making ANY sequence of append attempts never panics (appends_never_panic, all cache levels included); an oversized header is an error that creates nothing (oversized_header_is_error); estimate_lines and last_meta_timestamp cannot fault or loop (C11, C04). Not covered by a theorem: open of damaged files beyond C05's hypotheses, read_n through caches, header parsing on foreign files - those are differential (extreme-argument cross product, panic hook, watchdog per script). Known finding marker-tail applies."
 }
 
+# what the theorems of a property do NOT cover (hypotheses left open, clauses carried by the
+# differential check alone); copied into the evidence files
+PARTIAL = {
+ "C01": ["after a reopen: hypothesis TailClean for payload < 4 (known finding marker-tail)"],
+ "C03": ["persistence across reopen/repair inherits TailClean for payload < 4"],
+ "C04": ["hypothesis TailClean for payload < 4 (known finding marker-tail)", "file sizes below 2^64 bytes"],
+ "C05": ["hypothesis TailClean for payload < 4 (known finding marker-tail)", "index file states other than byte prefixes of the true index (arbitrary garbage) are differential only"],
+ "C06": ["after an open: inherits TailClean for payload < 4"],
+ "C07": ["reverse direction (foreign / older-release / non-canonical files): differential only (assets, independent Python encoder); the reader theorems are about canonical regions"],
+ "C08": ["theorems are for the harness's integer resampler over the library's own u64 ResampleState; the generic Resampler contract is assumed", "bucket sizes 1 <= B <= 2^32"],
+ "C09": ["a cache AHEAD of a torn source (kept straddling bucket / rebuild): differential only", "a cache data file present with its index deleted: differential only", "TailClean for payload < 4, for the source and for every cache"],
+ "C10": ["at most 2^32 lines per file (u64 value sums of the integer resampler)"],
+ "C11": ["cache levels listed by increasing bucket size (documented precondition)", "at most 2^32 lines per level"],
+ "C12": ["after reopen/repair: inherits TailClean for payload < 4"],
+ "C14": [],
+ "C15": ["after an open: inherits TailClean for payload < 4"],
+ "C16": ["the operating system's append-mode semantics are modelled, not verified; the tie is the file audit"],
+ "C17": ["path / extension handling and create_new semantics: differential only", "a demanded header that differs is decided by one comparison in the model (error-message code is outside the model)"],
+ "C18": ["bounded reads after damage at the API level: model = code comparison only (the specification prescribes full reads)"],
+ "C19": ["opens of damaged files outside C05's crash model: differential only", "read_n through caches: bucket sizes in increasing order", "known findings marker-tail and zero-bucket"],
+}
+
 for _pid, _cfg in PROPS.items():
     _cfg["level_text"] = LEVEL_TEXT.get(_pid, "")
+    _cfg["partial"] = PARTIAL.get(_pid, [])
